@@ -15,6 +15,15 @@ from pyopenapi_gen.core.parsing.schema_parser import _parse_schema
 logger = logging.getLogger(__name__)
 
 
+def _is_array_of_inline_objects(node: Mapping[str, Any]) -> bool:
+    """An array whose items are (arrays of) an inline object: its item model needs a name derived from the operation,
+    otherwise it is numbered (AnonymousArrayItem, AnonymousArrayItem2, ...) in the order paths are declared."""
+    items = node.get("items")
+    if node.get("type") != "array" or not isinstance(items, Mapping) or "$ref" in items:
+        return False
+    return items.get("type") == "object" or "properties" in items or _is_array_of_inline_objects(items)
+
+
 def parse_response(
     code: str,
     node: Mapping[str, Any],
@@ -71,6 +80,7 @@ def parse_response(
                     or "allOf" in media_schema_node
                     or "anyOf" in media_schema_node
                     or "oneOf" in media_schema_node
+                    or _is_array_of_inline_objects(media_schema_node)
                 )
             ):
                 content[mt] = _parse_schema(
